@@ -249,6 +249,9 @@ pub fn run(ctx: &mut Ctx) {
         ctx.require_label(sub, "expired-in-inline-map", 0.05);
         ctx.require_label(sub, "reannounce", 0.05);
     }
+    // offers of different age side by side, refreshed offers, cleans between their deadlines:
+    // every short sequence (shared with C09's small-scope enumeration)
+    ctx.run_enum("ws-offers-small-scope", crate::checks::c09::small_cases_pub(t.pick(6, 7)), true, crate::checks::c09::prop_small);
     ctx.require_label("ws", "clean-at-offer-deadline", 0.03);
     ctx.require_label("ws", "clean-expired-offer", 0.03);
 }
